@@ -193,6 +193,16 @@ add('C15', 'model_checking',
     '--usecompiled} x --path / --test-path, with the file system snapshotted (paths, hashes) before and after; TLC judges the diff.',
     TRUSTED, 'TLA+ spec + TLC check of the definitions + TLC-evaluated oracle on file-system diffs of real runs', 'DESIGN.md 5/C15')
 
+add('C17', 'model_checking',
+    'TLC (XmlReport.tla) checks the recording machine of XMLOutputFormattingWrapper (_record / writeXMLReports) for 2 tests '
+    'x 11 outcome sequences x 2 classes x --repeat 2 - suite attributes = element counts, every passing test once per '
+    'iteration, every bad event a testcase of its own test with the right child, termination - and the serialiser table over '
+    'all character-class sequences <= 3; three deviation configs (two of them the repaired defects) give counterexamples. '
+    'Real in-process --xml runs over 13 outcome kinds x messages built from 12 character classes x odd test names x '
+    '--repeat / --buffer: every report file is parsed with expat and TLC compares files and recorded run clause by clause.',
+    TRUSTED + ' The Unicode range is covered by class partition; doctest cases are not generated.',
+    'TLA+ spec + TLC model checking + TLC validation of parsed report files of real runs', 'DESIGN.md 5/C17')
+
 NOT_YET = {
 }
 
